@@ -214,8 +214,11 @@ output(std::ostream &out, CPPScope *scope, bool parameter_names,
       CPPExpression *expr = _parameters[i]->_initializer;
 
       if (num_default_parameters >= 0 &&
-          i < (int)_parameters.size() - num_default_parameters) {
-        // Don't show the default value for this parameter.
+          i < (int)_parameters.size() - num_default_parameters &&
+          !_parameters[i]->_type->is_parameter_expr()) {
+        // Don't show the default value for this parameter.  (If the
+        // "parameter" is really an expression, the expression is all there is
+        // to show; it is not a default value.)
         _parameters[i]->_initializer = nullptr;
       }
 
